@@ -318,7 +318,8 @@ def check(run, cfg):
                 try:
                     if eval(k['match'], {'__builtins__': {}}, dict(v=v, case=v.get('case', {}), fn=v.get('function', ''),
                                                                     what=v.get('what', ''), inp=v.get('failing_input', {}),
-                                                                    psi4=_psi4(v.get('case', {})), len=len, max=max, min=min)):
+                                                                    psi4=_psi4(v.get('case', {})), len=len, max=max, min=min,
+                                                                    inf=float('inf'), str=str, abs=abs)):
                         hit = k
                         break
                 except Exception:       # noqa: a malformed matcher never hides a violation
